@@ -126,6 +126,7 @@ def run(ctx, only_entry=False):
     runs = 0
     results = {}        # (fn, rule) -> list of (desc, return value)
     entry_items = []
+    entry_err = []
     site_fail = {}
     unanalysable = []
     reached_fns = set()
@@ -212,6 +213,27 @@ def run(ctx, only_entry=False):
             results.setdefault((fn, rule), []).append((desc, rv, tuple(x.rule for x in items if isinstance(x, PairV))))
             if fn == ENTRY:
                 entry_items.append((desc, items, rv))
+                # the same tree once more with a label check that fails: the failure must come out of parse, whatever it is
+                I_e = absint.Interp(p)
+                I_e.unroll = 12
+                pm.install(I_e)
+                for c in all_parse:
+                    if c != fn:
+                        I_e.fn_overrides[c] = mk_stub(c)
+                I_e.fn_overrides["<L::parser::implementation::AsmParser as pest::parser::Parser<L::parser::implementation::Rule>>::parse"] = pest_parse
+                I_e.fn_overrides["pest::parser::Parser::parse"] = pest_parse
+                err_t = p.need_type("L::parser::implementation::error::ParserError") if \
+                    "L::parser::implementation::error::ParserError" in p.types else None
+                evs = {vi: tuple(TOP for _ in v["fields"]) for vi, v in enumerate(err_t["variants"])} if err_t else None
+                I_e.fn_overrides[PI + "validate_lines"] = \
+                    lambda I_, st, depth, callee, args, b_, ln, evs=evs: En({1: (En(evs) if evs else TOP,)})
+                st_e = absint.State()
+                a_e = I_e.new_alloc(st_e, "input", Opaque("INPUT"))
+                try:
+                    rv_e = I_e.run_body(body, [Ref(a_e)], st_e, 0)
+                except absint.AnalysisLimit as e:
+                    rv_e = None
+                entry_err.append((desc, rv_e))
             for e in I.events:
                 if e.in_log:
                     continue
@@ -263,6 +285,13 @@ def run(ctx, only_entry=False):
                p.bodies[ENTRY].loc(), "lines %r (expected %s); header comment %r" % (got_lines, list(want_lines), got_c),
                "A4 of AsmParser::parse over every file-level child sequence, parse_line/parse_comment as tagged stand-ins")
 
+    for desc, rv_e in entry_err:
+        ok_e = isinstance(rv_e, En) and set(rv_e.vs) == {1}
+        chk.ob("label-check-propagates/%s" % desc.replace("file children ", "").replace(" ", "_"), ok_e,
+               "when the label check (validate_lines) fails - for whichever reason - AsmParser::parse returns an error: no "
+               "program with an undefined label or too many labels is accepted", p.bodies[ENTRY].loc(),
+               "result of parse when validate_lines returns Err: %r" % (rv_e,),
+               "A4 of AsmParser::parse with validate_lines replaced by a stand-in that returns every error variant")
     if only_entry:
         return
     # ---- clause 1/2: panic sites -----------------------------------------------------
@@ -458,24 +487,21 @@ def run(ctx, only_entry=False):
     chk.ob("labels/normalisation", lower_calls >= 3,
            "definitions (labels and .EQU) and references are compared after the same lower-casing", vb.loc(),
            "to_lowercase call sites: %d" % lower_calls)
-    # comment trimming set
-    cb = [k for k in p.bodies if k.startswith(PI + "parse_comment::{closure")]
-    lits = set()
-    for k in cb:
-        for blk in p.bodies[k].blocks:
-            for s in blk["s"]:
-                for o in (mirutil._rvalue_operands(s["r"]) if s["k"] == "assign" else []):
-                    kk = o.get("k")
-                    if kk and "str" in kk:
-                        lits.add(kk["str"])
-            t = blk["t"]
-            if t["k"] == "call":
-                for a in t["args"]:
-                    kk = a.get("k")
-                    if kk and "str" in kk:
-                        lits.add(kk["str"])
-    chk.ob("comment/trim-set", lits == {lim["comment_trim"]}, "comments are trimmed of blanks, tabs and semicolons",
-           p.need_body(PI + "parse_comment").loc(), "literals in the trim closure: %r" % sorted(lits))
+    # comment trimming: the real parse_comment on every text over {blank, tab, ';', letter} up to four characters
+    from .. import commentmodel
+    cpar = commentmodel.CommentParser(p, g)
+    trimset = lim["comment_trim"]
+    bad_c = []
+    fam = commentmodel.family(4)
+    for rest in fam:
+        got, badc = cpar.parse(rest)
+        want = (";" + rest).strip(trimset)
+        if badc or not isinstance(got, Str) or got.s != want:
+            bad_c.append("%r is stored as %r, expected %r %s" % (";" + rest, got.s if isinstance(got, Str) else got, want, badc[:1] or ""))
+    chk.ob("comment/trimmed", not bad_c, "a comment is stored without the blanks, tabs and semicolons at either end, its inside unchanged",
+           cpar.body.loc(), "; ".join(bad_c[:3]) or "%d comment texts" % len(fam),
+           "A4 of parse_comment on concrete comment texts")
+    chk.floor("comment texts", len(fam), 341)
     chk.assume("pest 2.5.7 implements the PEG semantics modelled by sa/grammar.py and never panics itself")
     chk.sample({"consumer": "parse_instruction_add", "rule": "add", "children": ["sep_ip", "register", "sep_pp", "register"]})
 
